@@ -258,6 +258,13 @@ class Program:
     def function(self, qualname: str) -> FunctionInfo:
         fi = self.functions.get(qualname)
         if fi is None:
+            # a module-level function that moved to another module of the package and is imported where it used to be:
+            # the name still denotes it
+            mod, _, name = qualname.rpartition(".")
+            if mod in self.modules:
+                tgt = self.resolve_name(mod, name)
+                if tgt and tgt != qualname and tgt in self.functions:
+                    return self.functions[tgt]
             raise AnalysisError(f"anchor vanished: function {qualname} not found in {self.root}")
         return fi
 
